@@ -21,9 +21,11 @@ void h_first_unpr_fixed(void)
     g_k = nondet_unsigned(); g_p = nondet_int(); g_plvl = nondet_int(); g_mask_from = nondet_int(); g_mask_to = nondet_int(); g_Mfrom = nondet_int(); g_Mto = nondet_int();
     g_fully = nondet_bool(); g_down = nondet_int(); g_down_i = nondet_int(); g_rec_ret = nondet_bool(); g_rec_calls = 0; g_rec_k = nondet_unsigned(); g_rec_p = nondet_int();
     g_pri_ret = nondet_bool(); g_pri_calls = 0; g_pri_k = nondet_unsigned(); g_pri_p = nondet_int(); g_term_calls = 0; g_multi = nondet_bool(); g_sets = nondet_bool();
-    g_F = (struct forest *)malloc(1); g_ev = (struct edge_value *)malloc(sizeof(struct edge_value)); g_U = NULL; g_Uf = NULL; __CPROVER_assume(g_F && g_ev);
+    g_F = (struct forest *)malloc(1); g_ev = (struct edge_value *)malloc(sizeof(struct edge_value)); g_U = NULL; g_Uf = nondet_bool() ? NULL : (struct unpacked_node *)malloc(1); __CPROVER_assume(g_F && g_ev);
+    g_size = nondet_unsigned(); g_zs = nondet_unsigned(); g_idx = nondet_int(); g_ok_child = nondet_int(); g_Z = nondet_unsigned(); g_init_kind = 0;
     _Bool r = iterator_templ__first_unpr(it, g_k, g_p);
     CANARY();
+    CANARY_IF(g_Uf == NULL); CANARY_IF(g_Uf != NULL && g_p != 0 && g_k != 0 && g_sets && g_zs < g_size && g_zs > 2); CANARY_IF(g_Uf != NULL && g_p != 0 && g_k != 0 && !g_sets && g_zs >= g_size && g_size > 2);
     CANARY_IF(g_p != 0 && g_k == 0 && g_multi); CANARY_IF(g_p != 0 && g_k == 0 && !g_multi && g_sets); CANARY_IF(g_p != 0 && g_k != 0 && (int)g_k == g_plvl && g_sets);
     CANARY_IF(g_p != 0 && g_k != 0 && (int)g_k != g_plvl && !g_sets);
 }
